@@ -47,8 +47,8 @@ CHECKS = {
          "4 C04", "Coq-verified per-node checker + engine model correspondence through the real parser"),
  "C16": ("histories of parses, failed parses, validate, printing, instantiation, graph/query construction on one "
          "Language, then a probe compared with a fresh identical language and with the engine model run in an empty "
-         "store; on the model: allocation monotonic, bindings write-once (C16_fresh), history/frame theorem in "
-         "props/C16.v when present",
+         "store; on the model C16_history proves for EVERY prior store and every well-scoped program that the run is the "
+         "shifted image of the run in the empty store and leaves the old store untouched (frame), incl. after failures",
          "4 C16", "Coq proof on the engine model (frame/freshness) + history differential testing"),
  "C20": ("TypeUnion.add / Bag.add / the emitted containsType lines modelled branch by branch over a decidable order "
          "instantiated with C01's is_subtype: union = exactly the minimal (maximal) inserted elements for every "
@@ -56,6 +56,25 @@ CHECKS = {
          "pre-filter are satisfied iff every inserted requirement is; run against bag.py/query.types() of /repo with "
          "all up-sets generated by <= 3 types as oracle",
          "4 C20", "Coq proof by induction over insertion histories + correspondence + up-set oracle"),
+ "C13": ("tokenizer and the parse_expr/parse_type stack machine modelled as one structurally recursive token machine "
+         "over an abstract type checker: every rendering (f x y, f(x,y), (f x) y, redundant brackets, blanks, newlines, "
+         "comments, annotations) of every tree parses to the same construction sequence as programmatic building "
+         "(same objects, same checker calls, same result or error); numbers, fresh sources, annotations keep the tree; "
+         "Expr.match characterised; node types of parsed vs programmatically built expressions compared on /repo "
+         "(typed half is tested, not proved)",
+         "4 C13", "Coq proof by induction on renderings over an abstract checker + parser correspondence + typed differential oracle"),
+ "C14": ("text printer + tokenizer + parse_type stack machine and uri/parse_type_uri modelled at character level: "
+         "parse(print t) = t for all concrete non-function types of any depth, aliases denote their expansion, URI "
+         "decode inverts URI encode, URIs injective on types and operators, names kept distinct by every Language.add "
+         "history; run against /repo exhaustively to depth 3 over small languages",
+         "4 C14", "Coq proof (prefix-code / stack-machine induction) + correspondence + round-trip oracle"),
+ "C17": ("engine half: every Python assert of the engine is a Crash outcome of the faithful model and "
+         "C17_engine_nocrash proves, for every hierarchy, fuel, schedule and program, that no run reaches one "
+         "(store invariant preserved by all eight mutually recursive operations); pure readers proved to fail only by "
+         "fuel and to terminate under a depth bound; parser half: C17_parse_total - the fixed parser never crashes on "
+         "any token list; harness: undeclared exception classes, printing, per-case time bound, token-level fuzzing of "
+         "/repo against the parser model; termination of the constrained engine is observed, not proved",
+         "4 C17", "Coq proof (invariant by induction on fuel; parser totality) + correspondence + exception-class oracle + fuzzing"),
  "C18": ("schedules proved to only permute the pending constraints; independence of the outcome is refuted for the "
          "error kind (C18_refuted, known finding) and otherwise searched exhaustively per case (all permutations at "
          "every re-check point, imposed on /repo through the guarded hook) with model/implementation agreement per "
